@@ -50,16 +50,19 @@ class C03(DevProp):
     def gen(self, rng, tier):
         cases = []
         codes = [30, 31, 32, 33]
+        SHIFT = [0, 1, -1, 2]
         for cmode in devgen.CMODES:
-            for variant in ("direct", "offset", "transpose"):
+            for variant in ("direct", "offset", "transpose", "transpose-distinct"):
                 midi = []
                 for i, c in enumerate(codes):
                     if variant == "direct":
                         midi.append({"sub": "", "code": c, "note": 60, "off": 0})
                     elif variant == "offset":
                         midi.append({"sub": "", "code": c, "note": 60, "off": 16 * 0 + (3 if i % 2 else 3)})
-                    else:
+                    elif variant == "transpose":
                         midi.append({"sub": "", "code": c, "note": 60 - 12 * (i % 2), "off": 0})
+                    else:   # no two keys share a note statically: collisions exist only through transposition between presses
+                        midi.append({"sub": "", "code": c, "note": 60 - 12 * SHIFT[i], "off": 0})
                 midi.append({"sub": "", "code": 40, "note": 61, "off": 0})
                 cfg = {"mappings": [{"name": "M0", "midi": midi, "analog": [], "dz": [], "defdz": [], "subs": []}],
                        "actions": [{"code": 59, "action": "octave_up"}, {"code": 60, "action": "octave_down"}],
@@ -72,8 +75,8 @@ class C03(DevProp):
                         ev = []
                         octave = 0
                         for (i, v) in ep:
-                            if variant == "transpose" and v == 1:
-                                want = i % 2           # odd keys are an octave lower: need octave +1
+                            if variant.startswith("transpose") and v == 1:
+                                want = i % 2 if variant == "transpose" else SHIFT[i]   # key i sounds 60 at octave `want`
                                 while octave < want:
                                     ev += [k(59, 1), k(59, 0)]
                                     octave += 1
